@@ -184,6 +184,7 @@ func init() {
 				}
 				items = append(items, it)
 			}
+			items = append(items, Item{Name: "custom-schemas", MaxDevs: -1, Run: c13CustomScenario})
 			// tagged destinations: the record skeleton with uniform zog tags (plain, and with a comma in the value)
 			for _, cfg := range []int{1, 6} {
 				fields := recordFields(false)
